@@ -714,6 +714,20 @@ theorem extIter_encoded : ∀ (exts : List (Bytes × Bytes)) (fuel : Nat), (∀ 
         rw [ih f hrest hf]
         simp
 
+theorem extsSpan_encoded : ∀ (exts : List (Bytes × Bytes)), (∀ sp ∈ exts, ExtOk sp) →
+    extsSpan exts = (encodeExts exts).length := by
+  intro exts
+  induction exts with
+  | nil => intro _; rfl
+  | cons sp exts ih =>
+    intro hok
+    have h4 := (hok sp (by simp)).1
+    have := ih (fun x hx => hok x (by simp [hx]))
+    simp only [extsSpan, List.map_cons, List.sum_cons] at this ⊢
+    simp only [encodeExts, List.flatMap_cons, List.length_append, encodeExt, be32, List.length_cons,
+      List.length_nil, h4] at this ⊢
+    omega
+
 def OffsetOk (o : Offset) : Prop := o.fromStart < 4294967296 ∧ o.numEntries < 4294967296
 
 def encodeOffsets (offs : List Offset) : Bytes := offs.flatMap fun o => be32 o.fromStart ++ be32 o.numEntries
@@ -821,7 +835,8 @@ theorem eoieDecode_encoded (sha1 : Bytes → Bytes) (hsha : ∀ x, (sha1 x).leng
   simp only []
   have h3 : ¬ (sha1 (exts.flatMap fun (x : Bytes × Bytes) => x.1 ++ be32 x.2.length) ≠
       sha1 (exts.flatMap fun (s, p) => s ++ be32 p.length)) := by simp
-  have h4 : ¬ (exts.isEmpty = true ∨ (encodeExts exts).length ≠ (encodeExts exts).length) := by
+  have h4 : ¬ (exts.isEmpty = true ∨ extsSpan exts ≠ (encodeExts exts).length) := by
+    rw [extsSpan_encoded exts hok]
     cases exts with
     | nil => exact absurd rfl hne
     | cons a b => simp
